@@ -1,8 +1,12 @@
 (* C04 - Built-in dissimilarities compute their documented formula in both forms.
-   The formulas themselves are the definitions of theories/Dissim/Model.v (compared with d() and with the compiled kernels on every
-   run); the theorems below are the algebraic laws the property states.  Proofs in theories/Dissim/Proofs.v. *)
-From Coq Require Import List Arith ZArith QArith Qabs Bool Permutation.
+   The formulas are the definitions of theories/Dissim/Model.v.  They are tied to the source twice: (i) the bodies of d() and of the compiled
+   kernels of the positional, absolute, table and combined dissimilarities, and the row _build_arrays_continuum writes for a unit, are
+   TRANSLATED from dissimilarity.py on every run (harness/gen_tables.py -> genprops/DissimGen.v) and the C04_src_* theorems at the end of this
+   file are re-proved against that translation; (ii) d(), the kernels and the precomputed matrices are compared with the model on every run.
+   The theorems in between are the algebraic laws the property states.  Proofs in theories/Dissim/Proofs.v. *)
+From Coq Require Import List Arith ZArith QArith Qabs Qround Bool Permutation Lia.
 From PGA Require Import Dissim.Model Dissim.Proofs.
+From PGAprops Require Import DissimGen.
 Import ListNotations.
 Local Open Scope Q_scope.
 
@@ -73,3 +77,63 @@ Example C04_example :
   dord [(0%Z, 0); (1%Z, 1); (2%Z, 2)] 1 0%Z 2%Z == 1 /\ dord [(2%Z, 2); (0%Z, 0); (1%Z, 1)] 1 0%Z 2%Z == 1 /\
   dlev [[99;97;116]; [99;97;114;116]]%nat 1 [99;97;116]%nat [99;97;114;116]%nat == 1 # 5.
 Proof. vm_compute. repeat split; reflexivity. Qed.
+
+(* ---------------------------------------------------------------------------------------------------------------------------------
+   Tie to the source: the definitions of DissimGen.v are what dissimilarity.py says NOW.  These proofs are deliberately kept here (not in
+   theories/): they are the obligations a change of the source can break, and they must not take the other properties' builds down. *)
+Lemma category_index_eq b cats c : category_index b cats c = cat_index cats c.
+Proof. unfold category_index, cat_index. destruct c, b; reflexivity. Qed.
+Lemma qnat_inj n : Z.to_nat (Qfloor (inject_Z (Z.of_nat n))) = n.
+Proof. rewrite Qfloor_Z. apply Nat2Z.id. Qed.
+Lemma qeqb_nat a b : Qeq_bool (inject_Z (Z.of_nat a)) (inject_Z (Z.of_nat b)) = (a =? b)%nat.
+Proof.
+  destruct (Nat.eqb_spec a b) as [->|Hne].
+  - apply Qeq_bool_iff. reflexivity.
+  - destruct (Qeq_bool _ _) eqn:E; [|reflexivity]. apply Qeq_bool_iff in E. unfold Qeq in E. simpl in E. lia.
+Qed.
+
+(* closes goals that differ by a rearrangement of +, *, / only (so that a harmless reordering in the source does not break the obligation) *)
+Ltac same_formula := first [ reflexivity | ring | (unfold Qdiv; ring) ].
+
+(* the source's d() and kernel bodies ARE the model's formulas (kernels: on the rows _build_arrays_continuum writes) *)
+Theorem C04_src_pos_unit_form de u v : pos_d de u v == dpos de u v.
+Proof. unfold pos_d, dpos. same_formula. Qed.
+Theorem C04_src_pos_array_form b cats de u v : pos_d_mat de (unit_row b cats u) (unit_row b cats v) == dpos de u v.
+Proof. unfold pos_d_mat, unit_row, dpos. cbn [nth]. same_formula. Qed.
+Theorem C04_src_abs_unit_form de u v : abs_d de u v == dabs de u v.
+Proof. unfold abs_d, dabs. destruct (cat_eqb (qc u) (qc v)); cbn [negb]; ring. Qed.
+Theorem C04_src_abs_array_form b cats de u v : abs_d_mat de (unit_row b cats u) (unit_row b cats v) == dabs_arr cats de u v.
+Proof. unfold abs_d_mat, unit_row, dabs_arr. cbn [nth]. rewrite qeqb_nat, !category_index_eq. destruct (_ =? _)%nat; ring. Qed.
+Theorem C04_src_table_unit_form cats m de u v : table_d cats de m u v == dtable cats m de u v.
+Proof. unfold table_d, dtable. same_formula. Qed.
+Theorem C04_src_table_array_form b cats m de u v : table_d_mat de m (unit_row b cats u) (unit_row b cats v) == dtable cats m de u v.
+Proof. unfold table_d_mat, unit_row, dtable. cbn [nth]. rewrite !qnat_inj, !category_index_eq. same_formula. Qed.
+Theorem C04_src_comb_unit_form alpha beta dp dc u v : comb_d alpha beta dc dp u v == dcomb alpha beta dp dc u v.
+Proof. unfold comb_d, dcomb. same_formula. Qed.
+Theorem C04_src_comb_array_form alpha beta pm cm dp dc ru rv u v : pm ru rv == dp u v -> cm ru rv == dc u v ->
+  comb_d_mat alpha beta cm pm ru rv == dcomb alpha beta dp dc u v.
+Proof. intros Hp Hc. unfold comb_d_mat, dcomb. rewrite <- Hp, <- Hc. same_formula. Qed.
+
+(* "in both forms": the kernel applied to the rows equals d() applied to the units, for every unit pair (labels among the categories) *)
+Theorem C04_src_forms_agree_pos b cats de u v : pos_d_mat de (unit_row b cats u) (unit_row b cats v) == pos_d de u v.
+Proof. rewrite C04_src_pos_array_form, C04_src_pos_unit_form. reflexivity. Qed.
+Theorem C04_src_forms_agree_abs b cats de u v :
+  (forall x, qc u = Some x -> In x cats) -> (forall x, qc v = Some x -> In x cats) ->
+  abs_d_mat de (unit_row b cats u) (unit_row b cats v) == abs_d de u v.
+Proof. intros Hu Hv. rewrite C04_src_abs_array_form, C04_src_abs_unit_form, (dabs_arr_eq cats de u v Hu Hv). reflexivity. Qed.
+Theorem C04_src_forms_agree_table b cats m de u v : table_d_mat de m (unit_row b cats u) (unit_row b cats v) == table_d cats de m u v.
+Proof. rewrite C04_src_table_array_form, C04_src_table_unit_form. reflexivity. Qed.
+Theorem C04_src_forms_agree_comb alpha beta b cats de m u v :
+  comb_d_mat alpha beta (table_d_mat de m) (pos_d_mat de) (unit_row b cats u) (unit_row b cats v)
+  == comb_d alpha beta (table_d cats de m) (pos_d de) u v.
+Proof.
+  rewrite (C04_src_comb_array_form alpha beta _ _ (dpos de) (dtable cats m de) _ _ u v
+             (C04_src_pos_array_form b cats de u v) (C04_src_table_array_form b cats m de u v)).
+  rewrite C04_src_comb_unit_form. unfold dcomb.
+  rewrite C04_src_pos_unit_form, C04_src_table_unit_form. reflexivity.
+Qed.
+
+Example C04_src_example :
+  pos_d_mat (1#2) (unit_row true [] (mkUQ 0 4 None)) (unit_row true [] (mkUQ 1 3 None)) == 1 # 18 /\
+  abs_d_mat 2 (unit_row true [5%Z; 7%Z] (mkUQ 0 1 (Some 7%Z))) (unit_row true [5%Z; 7%Z] (mkUQ 0 1 None)) == 2.
+Proof. vm_compute. split; reflexivity. Qed.
